@@ -129,6 +129,9 @@ def run(ctx, sm, facts):
     run_specs(ctx, facts, 'C14', 'C14.a', ctx.tier, ctx.seed, floor=5)
     refusals(ctx, facts)
     definite_failures(ctx, facts, sm, 'C14.c', [FXP])
+    ctx.rule('C14.f', 'operand purity of the software reference: FixedPoint.add / sub / mult never mutate self, the argument or an alias (x.sub(x), an operand used again)')
+    from .c12 import operand_purity
+    operand_purity(ctx, facts, 'C14.f', ('FixedPoint',), 3)
     ctx.rule('C14.e', 'instance isolation: no mutable default / class-level container / memoised method in arithmetic_fxp.py, arithmetic.py (the blocks it is composed of) and relational.py')
     from ..leafrules import shared_instance_state
     shared_instance_state(ctx, facts, 'C14.e', [FXP, 'py4hw/logic/arithmetic.py', 'py4hw/logic/relational.py'])
